@@ -154,6 +154,19 @@ func VH_C10_ServerScript() {
 		found = found || p == c.cfg.n
 	}
 	vAssert(found, "server entered the data phase with a window no SYN proposed")
+	// round-trip samples come only from packets that were not retransmitted:
+	// a server that had to send its SYN more than once cannot tell which copy
+	// the SYNACK answers and must not take a sample from it
+	syns := 0
+	for _, b := range w.out {
+		if len(b) > 0 && b[0] == SYN {
+			syns++
+		}
+	}
+	if syns >= 2 {
+		vReach("script-syn-resent")
+		vAssert(!c.timeoutManager.hasSetDynamicTimeout, "the server took a round-trip sample from a handshake in which it had sent its SYN more than once")
+	}
 	// the data phase must survive what is left of the script
 	c.SetRecvTimeout(5 * time.Second)
 	_, _ = c.Recv()
